@@ -25,13 +25,32 @@ def translate(R, exe):
         R.coverage["translation_incomplete"] = incomplete
 
 
+def cut_to_last_case(trace):
+    """a run stopped by the wall clock leaves an unfinished case at the end of the trace: drop it"""
+    data = open(trace, errors="replace").read()
+    k = data.rfind("\nend\n")
+    if k >= 0:
+        open(trace, "w").write(data[:k + 5])
+
+
 def run_harness(R, exe, n, seed, exhaustive, tag):
     trace = os.path.join(R.rundir, "trace" + tag)
     env = vlib.goenv()
     env.update(VERIF_SEED=str(seed), VERIF_N=str(n), VERIF_OUT=trace, VERIF_EXHAUSTIVE="1" if exhaustive else "0")
     rc, out = vlib.sh([exe, "-test.run", "TestTrace$", "-test.count=1", "-test.timeout=0"], env=env, timeout=75 if R.quick else 3000)
     if rc == 124:
-        R.oracle_failure("harness-timeout", "the event-level run did not finish within its wall-clock budget: the real routers do not come to rest in a bounded number of exchanges under the generated schedules",
+        # every loop of the harness has a step bound (noquiet / overrun are reported from the trace), so running out of
+        # wall clock with cases completed means a loaded machine, not a hanging router: analyse what was produced
+        done = 0
+        try:
+            done = sum(1 for l in open(trace, errors="replace") if l.startswith("end"))
+        except OSError:
+            pass
+        if done >= 10:
+            R.notes.append("event-level run stopped by its wall-clock budget after %d cases (loaded machine); the completed cases are analysed" % done)
+            cut_to_last_case(trace)
+            return trace
+        R.oracle_failure("harness-timeout", "the event-level run did not get through 10 cases within its wall-clock budget: the real routers do not come to rest in a bounded number of exchanges under the generated schedules",
                          dict(output=out[-2000:], seed=seed, n=n, exhaustive=exhaustive))
         return trace if os.path.exists(trace) else None
     if rc != 0:
@@ -166,10 +185,18 @@ def run_proto(R, exe, runner, n, seed):
     env = vlib.goenv(); env.update(VERIF_SEED=str(seed), VERIF_N=str(n), VERIF_OUT=trace)
     rc, out = vlib.sh([exe, "-test.run", "TestProto$", "-test.count=1", "-test.timeout=0"], env=env, timeout=60 if R.quick else 3000)
     if rc == 124:
-        R.oracle_failure("proto-harness-timeout", "the protocol-level run did not finish within its wall-clock budget (the real routers keep exchanging advertisements)",
-                         dict(output=out[-2000:], seed=seed, n=n))
-        return
-    if rc != 0:
+        done = 0
+        try:
+            done = sum(1 for l in open(trace, errors="replace") if l.startswith("end"))
+        except OSError:
+            pass
+        if done < 4:
+            R.oracle_failure("proto-harness-timeout", "the protocol-level run did not get through 4 cases within its wall-clock budget (the real routers keep exchanging advertisements)",
+                             dict(output=out[-2000:], seed=seed, n=n))
+            return
+        R.notes.append("protocol-level run stopped by its wall-clock budget after %d cases (loaded machine); the completed cases are analysed" % done)
+        cut_to_last_case(trace)
+    elif rc != 0:
         R.oracle_failure("proto-harness-crash", "the protocol-level harness aborted (panic or deadlock of the real router loops)",
                          dict(output=out[-3000:], seed=seed, n=n))
         return
